@@ -1,4 +1,4 @@
-* widest family: meant for seeded simulation (checks/c12.py passes -simulate); far too large for exhaustive search
+\* widest family: meant for seeded simulation (checks/c12.py passes -simulate); far too large for exhaustive search
 SPECIFICATION Spec
 CONSTANTS
   Family = "batch"
